@@ -3273,7 +3273,9 @@ impl Zeroconf {
                 let service_opt = self
                     .my_services
                     .iter()
-                    .find(|(k, _v)| dns_registry.resolve_name(k.as_str()) == query_name)
+                    .find(|(_k, v)| {
+                        dns_registry.resolve_name(v.get_fullname()).to_lowercase() == query_name
+                    })
                     .map(|(_, v)| v);
 
                 let Some(service) = service_opt else {
